@@ -62,8 +62,13 @@ def main():
            'stopped_early': False}
     nt = set()
     limit = getattr(mod, 'CASE_LIMIT_S', 120)
+    # witnesses of listed known findings neither stop the worker early nor crowd out other violations
+    from vmon.run import read_known
+    known = {slug for (c, slug) in read_known() if c == cid}
+    agg['known_counts'] = {}
+    unknown = 0
     for i in range(w, n, jobs):
-        if time.time() - t0 > deadline or len(agg['violations']) >= 40:
+        if time.time() - t0 > deadline or unknown >= 40:
             agg['stopped_early'] = True
             break
         rng = case_rng(seed, i, cid)
@@ -87,10 +92,18 @@ def main():
         if res.get('nontrivial'):
             nt.add(sig_of(spec))
         for v in res.get('viol', []):
-            if len(agg['violations']) < 200:
-                v = dict(v)
-                v['spec'] = spec
-                agg['violations'].append(v)
+            slug = v.get('mechanism')
+            if slug in known:
+                agg['known_counts'][slug] = agg['known_counts'].get(slug, 0) + 1
+                if agg['known_counts'][slug] > 3:
+                    continue
+            else:
+                unknown += 1
+                if unknown > 200:
+                    continue
+            v = dict(v)
+            v['spec'] = spec
+            agg['violations'].append(v)
         if len(agg['samples']) < 2 and res.get('nontrivial') and not res.get('viol'):
             agg['samples'].append({'case': spec, 'observed': res.get('summary')})
     agg['nontrivial_sigs'] = sorted(nt)
